@@ -1,36 +1,35 @@
 import Pyrealb.Driver.Proto
-import Pyrealb.Driver.OneOf
-/-! Line-protocol driver: one JSON object per input line, one JSON object per output line.
-    `{"op": <name>, ...}` is dispatched to the handler of the executable model. -/
-open Lean Pyrealb.Driver
+/-! The line-protocol loop shared by every model driver executable: one JSON object per input line, one JSON
+    object per output line; `{"op": <name>, ...}` is dispatched to the handler of the executable model. -/
+namespace Pyrealb.Driver
+open Lean
 
-def allOps : List (String × Handler) :=
-  OneOfOps.ops
-
-def handle (line : String) : String :=
+def handle (ops : List (String × Handler)) (line : String) : String :=
   match Json.parse line with
   | .error e => (Json.mkObj [("driver_error", Json.str s!"parse: {e}")]).compress
   | .ok j =>
     match getStr j "op" with
     | .error e => (Json.mkObj [("driver_error", Json.str e)]).compress
     | .ok op =>
-      match allOps.lookup op with
+      match ops.lookup op with
       | none => (Json.mkObj [("driver_error", Json.str s!"unknown op {op}")]).compress
       | some h =>
         match h j with
         | .ok r => r.compress
         | .error e => (Json.mkObj [("driver_error", Json.str e)]).compress
 
-partial def loop (hin : IO.FS.Stream) (hout : IO.FS.Stream) : IO Unit := do
+partial def loop (ops : List (String × Handler)) (hin hout : IO.FS.Stream) : IO Unit := do
   let line ← hin.getLine
   if line.isEmpty then return ()
   let t := line.trimAscii.toString
-  if t.isEmpty then loop hin hout else
-  hout.putStrLn (handle t)
-  loop hin hout
+  if t.isEmpty then loop ops hin hout else
+  hout.putStrLn (handle ops t)
+  loop ops hin hout
 
-def main : IO Unit := do
+def runLoop (ops : List (String × Handler)) : IO Unit := do
   let hin ← IO.getStdin
   let hout ← IO.getStdout
-  loop hin hout
+  loop ops hin hout
   hout.flush
+
+end Pyrealb.Driver
